@@ -105,14 +105,19 @@ def oracle_feasible(m, thr, rmax):
     return gen.magnitude_ok(shifted) and 40 * (m["GD"] * thr) ** na * 2048 < 2 ** 30
 
 
-def make_case(rng, *, shape=None, tiny=False):
+EPSD = 2 ** 20          # near-tie family: real reward = R - RE / EPSD (about 1e-6 below an integer)
+REUSE = {"learner-reused-on-other-mdp": "other-shape", "learner-reused-on-same-mdp": "same-mdp",
+         "learner-reused-on-same-shape-mdp": "same-shape"}
+
+
+def make_case(rng, *, shape=None, tiny=False, neartie=False):
     """One (instance, representation, configuration)."""
     while True:
         GN, GD = rng.choice([(1, 2), (3, 4), (9, 10), (9, 10)])
-        PD = rng.choice([2, 4])
+        PD = rng.choice([2, 4]) if not neartie else 2
         n_na = rng.choice([1, 2, 2, 3, 3, 3, 4, 5]) if not tiny else rng.choice([1, 2])
         n_abs = rng.choice([1, 1, 2])
-        K = rng.choice([1, 2, 2, 3])
+        K = rng.choice([1, 2, 2, 3]) if not neartie else rng.choice([2, 2, 3])
         rew = rng.choice([(-1, 0, 1, 2), (0, 1), (-2, -1, 0), (-2, -1), (0, 1, 3), (-1, 1)])
         m = gen.rand_mdp(rng, n_na=n_na, n_abs=n_abs, K=K, PD=PD, GN=GN, GD=GD, rewards=rew, ID=rng.choice([2, 4]),
                          force_progress=True, uniform_actions=True, ghost=rng.random() < 0.5,
@@ -126,12 +131,33 @@ def make_case(rng, *, shape=None, tiny=False):
         if shape == "state-list-with-unreachable-states":
             rep["explicit_list"] = True
             rep["rep"] = rng.choice(["quick", "subclass", "matrices"])
-        cfg = {"thr": rng.choice([1, 1, 2, 2, 3, 4, 5]),
-               "episodes": rng.choice([1, 2, 3, 5, 8, 13, 20]),
+        RE = None
+        if neartie:
+            # action 1 duplicates action 0 with every reward lowered by 1/EPSD: once both are known their returned
+            # Q-values differ by about 1e-6 (far inside msdm's isclose window) without being equal
+            N = m["N"]
+            top = max(x for s_ in m["R"] for a_ in s_ for x in a_)
+            RE = [[[0] * N for _ in range(K)] for _ in range(N)]
+            for s_ in range(N):
+                if not m["abs"][s_] and rng.random() < 0.8:
+                    m["P"][s_][1] = list(m["P"][s_][0])
+                    m["R"][s_][1] = list(m["R"][s_][0])
+                    RE[s_][1] = [1] * N
+                for a_ in range(K):
+                    for t_ in range(N):
+                        if RE[s_][a_][t_] == 0 and m["R"][s_][a_][t_] < top and rng.random() < 0.15:
+                            RE[s_][a_][t_] = 1
+        cfg = {"thr": rng.choice([1, 1, 2, 2, 3, 4, 5]) if not neartie else rng.choice([1, 1, 2]),
+               "episodes": rng.choice([1, 2, 3, 5, 8, 13, 20]) if not neartie else rng.choice([3, 5, 8, 13, 20]),
                "seed": rng.choice([0, 1, 2, 3, 7, 11, 42, 12345, 2 ** 31 - 1]) if rng.random() < 0.5 else rng.randrange(10 ** 6),
                "diff": list(rng.choice(DIFFS)),
-               "reuse": 1 if shape == "learner-reused-on-other-mdp" else 0}
-        return {"m": m, "rep": rep, "cfg": cfg, "shape": shape or ""}
+               "reuse": REUSE.get(shape, 0)}
+        if cfg["reuse"] in ("same-mdp", "same-shape"):
+            cfg["warm_episodes"] = rng.choice([2, 5, 10, 20]) * cfg["thr"]
+        case = {"m": m, "rep": rep, "cfg": cfg, "shape": shape or ("near-tie-rewards" if neartie else "")}
+        if RE is not None:
+            case["RE"] = RE
+        return case
 
 
 def make_cases(rng, n, n_special):
@@ -139,7 +165,35 @@ def make_cases(rng, n, n_special):
     for _ in range(n_special):
         cases.append(make_case(rng, shape="state-list-with-unreachable-states"))
         cases.append(make_case(rng, shape="learner-reused-on-other-mdp"))
+        for _ in range(5):
+            cases.append(make_case(rng, shape="learner-reused-on-same-mdp"))
+            cases.append(make_case(rng, shape="learner-reused-on-same-shape-mdp"))
+        for _ in range(10):
+            cases.append(make_case(rng, neartie=True))
     return cases
+
+
+def real_instance(case):
+    """The instance handed to msdm: integer rewards, lowered by RE / EPSD in the near-tie family."""
+    m = case["m"]
+    if not case.get("RE"):
+        return m
+    N, K = m["N"], m["K"]
+    m2 = dict(m)
+    m2["R"] = [[[m["R"][s][a][t] - case["RE"][s][a][t] / EPSD for t in range(N)] for a in range(K)] for s in range(N)]
+    return m2
+
+
+def same_shape_instance(m_real, rng):
+    """Another MDP with the same states, actions, reachability and maximal reward: actions reversed, some
+    non-maximal rewards lowered by one."""
+    N, K = m_real["N"], m_real["K"]
+    top = max(x for s in m_real["R"] for a in s for x in a)
+    m2 = dict(m_real)
+    m2["P"] = [[list(m_real["P"][s][K - 1 - a]) for a in range(K)] for s in range(N)]
+    m2["R"] = [[[(x - 1 if x < top and rng.random() < 0.5 else x) for x in m_real["R"][s][K - 1 - a]]
+                for a in range(K)] for s in range(N)]
+    return m2
 
 
 # --------------------------------------------------------------------------------------------
@@ -200,8 +254,9 @@ def run_real(case):
     """Run RMAX.train_on on the case; returns a dict with raw observations (labels -> abstract indices)."""
     from msdm.algorithms.rmax import RMAX
     m, rep, cfg = case["m"], case["rep"], case["cfg"]
+    mr = real_instance(case)
     rng = random.Random(digest({"m": m, "rep": rep}))
-    b = build.build_mdp(m, rng=rng, **rep)
+    b = build.build_mdp(mr, rng=rng, **rep)
     out = {"b": b}
     try:
         rmax_f = float(np.max(b.mdp.reward_matrix))
@@ -215,9 +270,12 @@ def run_real(case):
     except ValueError:
         out["skip"] = "state_list names a state outside the instance"
         return out
-    cells = [(m["R"][s][a][t] if m["P"][s][a][t] > 0 else 0) for s in listed for a in range(m["K"]) for t in listed]
+    cells = [(mr["R"][s][a][t] if m["P"][s][a][t] > 0 else 0) for s in listed for a in range(m["K"]) for t in listed]
     if rmax_f != max(cells):
         out["skip"] = "max(reward_matrix) differs from the instance (array builders are checked by C06)"
+        return out
+    if rmax_f != int(rmax_f):
+        out["skip"] = "near-tie family: the maximal reward is a lowered one"
         return out
     out["rmax"] = int(rmax_f)
     diff = cfg["diff"][0] / cfg["diff"][1]
@@ -231,12 +289,28 @@ def run_real(case):
     prev = signal.signal(signal.SIGALRM, _alarm)
     signal.alarm(RUN_LIMIT_S)
     try:
-        if cfg.get("reuse"):
+        reuse = cfg.get("reuse")
+        reuse = "other-shape" if reuse == 1 else reuse
+        if reuse == "other-shape":
             if rmax_f < 0:
                 out["skip"] = "negative rmax with learner reuse"
                 return out
             learner.episodes = 2 * cfg["thr"]      # two actions: some pair reaches the threshold, value iteration runs
             learner.train_on(_warmup_mdp(rmax_f, b.mdp.discount_rate))
+            learner.episodes = cfg["episodes"]
+        elif reuse in ("same-mdp", "same-shape"):
+            # the same learner object is first trained on the same MDP / on another MDP of the same shape;
+            # the run that is recorded and judged is the second one
+            if reuse == "same-mdp":
+                warm = b.mdp
+            else:
+                warm = build.build_mdp(same_shape_instance(mr, random.Random(digest({"w": m}))),
+                                       rng=random.Random(digest({"m": m, "rep": rep})), **rep).mdp
+                if float(np.max(warm.reward_matrix)) != rmax_f or len(warm.state_list) != len(b.mdp.state_list):
+                    out["skip"] = "same-shape warm-up MDP has another maximal reward or state list"
+                    return out
+            learner.episodes = cfg.get("warm_episodes", 10)
+            learner.train_on(warm)
             learner.episodes = cfg["episodes"]
         res = learner.train_on(b.mdp)
         out["events"] = list(res.event_listener_results)
@@ -247,6 +321,9 @@ def run_real(case):
             lab = b.slabel[s]
             if lab in qv and all(al in qv[lab] for al in b.alabel):
                 out["q"][s] = [float(qv[lab][al]) for al in b.alabel]
+                # dense ranks of the returned values themselves (exact comparison, no float conversion)
+                vals = [qv[lab][al] for al in b.alabel]
+                out.setdefault("rk", {})[s] = [1 + len({w for w in vals if w < v}) for v in vals]
                 dist = res.policy.action_dist(lab)
                 out["pol"][s] = [0] * m["K"]
                 for a_lab, p in dist.items():
@@ -345,21 +422,25 @@ def to_trace(case, out, tag):
         raw.append(rq)
     rows = [[] for _ in range(N)]
     pol = [[0] * K for _ in range(N)]
+    rk = [[] for _ in range(N)]
     for s, row in out["q"].items():
         rows[s] = [quant(x, sc, clamp) for x in row]
         pol[s] = out["pol"][s]
+        rk[s] = out["rk"][s]
     if out.get("cut"):
         ev.append({"k": "cut"})
         raw.append(None)
     else:
-        ev.append({"k": "final", "q": rows, "pol": pol})
+        ev.append({"k": "final", "q": rows, "pol": pol, "rk": rk})
         raw.append(dict(out["q"]))
     vmax = F(rmax) / (1 - g)
     rec = {k: m[k] for k in ("N", "K", "PD", "GN", "GD", "ID", "abs", "avail", "P", "R", "p0")}
-    rec.update(thr=thr, rmax=rmax, SC=sc, DQ=math.ceil(diff * sc), actrule="code", tag=tag,
-               WQ=1 + math.ceil(sc * (F(1, 10 ** 8) + F(1, 10 ** 5) * max(abs(vmax), B))),
-               TC=math.ceil(1024 * (diff + F(3, sc)) / (1 - g)) + 3,
+    eps = F(1, EPSD) if case.get("RE") else F(0)
+    rec.update(thr=thr, rmax=rmax, SC=sc, DQ=math.ceil(diff * sc), EQ=math.ceil(eps * sc), actrule="code", tag=tag,
+               TC=math.ceil(1024 * (diff + eps + F(3, sc)) / (1 - g)) + 3,
                orc=1 if oracle_feasible(m, thr, rmax) else 0, ev=ev)
+    if case.get("RE"):
+        rec["RE"] = case["RE"]          # not read by the spec (it widens the residual tolerance by EQ instead)
     return rec, raw
 
 
@@ -459,7 +540,7 @@ def py_judge_q(t, cnt, tcnt, rsum, o, reach):
             else:
                 res = abs(o[s][a] * thr * t["GD"] - (rsum[s][a] * t["GD"] * sc
                                                     + t["GN"] * sum(tcnt[s][a][n] * vq[n] for n in range(N))))
-                if res > (t["DQ"] + 2) * thr * t["GD"]:
+                if res > (t["DQ"] + t["EQ"] + 2) * thr * t["GD"]:
                     bad.add("empirical-bellman-residual")
     seen = {s for s in range(N) if any(cnt[s])} | {n for s in range(N) for a in range(K) for n in range(N) if tcnt[s][a][n]}
     if (seen | reach) - set(rows):
@@ -503,13 +584,12 @@ def py_validate(t):
                 rsum[s0][a0] += t["R"][s0][a0][n0]
             cur = ns
         elif e["k"] == "final":
-            o, pol = e["q"], e["pol"]
+            o, pol, rk = e["q"], e["pol"], e["rk"]
             for x in py_judge_q(t, cnt, tcnt, rsum, o, reach):
                 fail.add((x, pos))
             for s in range(N):
-                if len(o[s]) == K:
-                    mx = max(o[s])
-                    if not any(pol[s]) or any(pol[s][a] and o[s][a] < mx - t["WQ"] for a in range(K)):
+                if len(rk[s]) == K:
+                    if not any(pol[s]) or any(pol[s][a] and rk[s][a] < max(rk[s]) for a in range(K)):
                         fail.add(("policy-not-greedy", pos))
     return fail, cnt, tcnt, rsum
 
@@ -533,7 +613,8 @@ def exact_final_check(t, raw_final, cnt, tcnt, diff):
                 if abs(q - vmax) > slack:
                     bad.add("unknown-pair-not-optimistic")
             else:
-                rhs = sum(F(tcnt[s][a][n], thr) * (t["R"][s][a][n] + g * V.get(n, 0)) for n in range(N) if tcnt[s][a][n])
+                rhs = sum(F(tcnt[s][a][n], thr) * (t["R"][s][a][n] - (F(t["RE"][s][a][n], EPSD) if "RE" in t else 0)
+                                                  + g * V.get(n, 0)) for n in range(N) if tcnt[s][a][n])
                 if abs(q - rhs) >= diff + slack:
                     bad.add("empirical-bellman-residual")
     return bad
@@ -548,7 +629,7 @@ def signature(case, tag):
 
 
 def strip(case):
-    return {k: case[k] for k in ("m", "rep", "cfg", "shape")}
+    return {k: case[k] for k in ("m", "rep", "cfg", "shape", "RE") if k in case}
 
 
 def judge_cases(ctx, cases, *, mutate=None, confirm=True):
@@ -637,7 +718,8 @@ def judge_cases(ctx, cases, *, mutate=None, confirm=True):
             if not ex:
                 far = max([abs(F(x) - qs[s][a]) for s, row in raw[-1].items() for a, x in enumerate(row)] + [F(0)])
                 slack = F(1, 10 ** 9) * max(1, abs(F(t["rmax"]) / (1 - g)))
-                if far > (diff + 2 * slack) / (1 - g) + slack:
+                eps = F(1, EPSD) if "RE" in t else F(0)
+                if far > (diff + eps + 2 * slack) / (1 - g) + slack:
                     raise TLCFailure(f"trace {t['tag']}: residual clause holds exactly but the table is {float(far)} "
                                      f"from the exact fixed point (oracle or judge wrong)")
         ex = exact_final_check(t, raw[-1], cnt, tcnt, diff)
@@ -673,6 +755,13 @@ def judge_cases(ctx, cases, *, mutate=None, confirm=True):
             ctx.nontrivial(digest(strip(c)))
         if known:
             ctx.count("runs_with_known_pairs")
+        # vacuity guard of the exact greedy clause: returned rows whose two best values are unequal but isclose
+        for row in raw[-1].values():
+            d = sorted(set(row))
+            if len(d) >= 2 and d[-1] - d[-2] <= 1e-8 + 1e-5 * abs(d[-1]):
+                ctx.count("returned_rows_with_unequal_near_tie_at_the_top")
+        if c["cfg"].get("reuse"):
+            ctx.count(f"reuse_runs_judged:{c['cfg']['reuse']}")
         if t["orc"] == 0:
             ctx.count("runs_without_exact_oracle(>3 non-absorbing states or magnitude)")
         ctx.sample({"instance": {k: t[k] for k in ("N", "K", "PD", "GN", "GD", "abs", "P", "R", "p0")},
@@ -708,7 +797,7 @@ def mc_batch(rng, n, big=0):
             continue
         g = F(GN, GD)
         sc = 1024
-        m.update(thr=thr, rmax=rmax, SC=sc, DQ=0, WQ=1, TC=math.ceil(1024 * F(3, sc) / (1 - g)) + 3, orc=1,
+        m.update(thr=thr, rmax=rmax, SC=sc, DQ=0, EQ=0, TC=math.ceil(1024 * F(3, sc) / (1 - g)) + 3, orc=1,
                  actrule=rng.choice(["code", "any"]), tag=str(len(batch) + 1), ev=[])
         batch.append(m)
     return batch
@@ -736,7 +825,10 @@ def run(ctx):
     quick = ctx.tier == "quick"
     ctx.rule = ("recorded RMAX.train_on runs on random proper MDPs with uniform action sets (1-5 non-absorbing + 1-2 "
                 "absorbing states, 1-3 actions, gamma in {1/2,3/4,9/10}) x threshold 1..5 x episodes 1..20 x seed x "
-                "tolerance x representation; non-trivial = at least one pair reached the threshold (value iteration ran) "
+                "tolerance x representation, plus reuse histories (the judged run is the second train_on of one learner object, "
+                "after the same MDP / another MDP of the same shape / of another shape), a near-tie family (duplicate action "
+                "with rewards 2^-20 lower, greedy clause decided on exact float ranks) and explicit state lists with "
+                "unreachable states; non-trivial = at least one pair reached the threshold (value iteration ran) "
                 "and at least one pair of a visited state is still below it at return, so both value clauses bind")
     ctx.assumptions = [
         "the table at an end_of_episode event is what a run with that many episodes returns (same seed); a clause "
@@ -798,8 +890,8 @@ def selftest(ctx):
             return
         if kind == "policy":
             for s in range(N):
-                if len(fin["q"][s]) == K and K > 1 and max(fin["q"][s]) - min(fin["q"][s]) > t["WQ"] + 2:
-                    lo = fin["q"][s].index(min(fin["q"][s]))
+                if len(fin["rk"][s]) == K and K > 1 and max(fin["rk"][s]) > min(fin["rk"][s]):
+                    lo = fin["rk"][s].index(min(fin["rk"][s]))
                     fin["pol"][s] = [1 if a == lo else 0 for a in range(K)]
                     plan[t["tag"]] = "policy-not-greedy"
                     return
